@@ -20,6 +20,18 @@ def cosmosFloorAccept (minGPraw gas fee : Nat) : Bool :=
   else if cosmosRequired minGPraw gas = 0 then false    -- no positive required fee: `IsAnyGTE` of an empty set is false
   else decide (cosmosRequired minGPraw gas ≤ fee)
 
+/-- what a Cosmos transaction is charged (DeductFeeDecorator with the dynamic fee checker, base fee in force):
+    min(baseFee + tip, ⌊fee / gas⌋) × gas; without the dynamic-fee extension option the tip is 2^63 − 1 -/
+def cosmosCharged (gas fee baseFee : Nat) (tip : Option Nat) : Nat :=
+  min (baseFee + tip.getD (2 ^ 63 - 1)) (fee / gas) * gas
+
+/-- MinGasPriceDecorator since cda7d87 (`chargedToo = true`): with the extension option the charged amount has to reach
+    the floor as well; before, only the declared fee was compared -/
+def cosmosFloorAcceptTx (chargedToo : Bool) (minGPraw gas fee baseFee : Nat) (tip : Option Nat) : Bool :=
+  cosmosFloorAccept minGPraw gas fee &&
+    (!chargedToo || tip.isNone || gas = 0 || minGPraw = 0 ||
+      decide (cosmosRequired minGPraw gas ≤ cosmosCharged gas fee baseFee tip))
+
 /-- effective gas price of an Ethereum tx: legacy / access-list pay `gasPrice`, dynamic-fee pays
     min(tip + baseFee, cap) -/
 def effectivePrice (dynamic : Bool) (gasPrice tip cap baseFee : Nat) : Nat :=
